@@ -128,7 +128,7 @@ def _run(params, values):
             b2 = run_core(on, src)
             if not recs:
                 compare(a2, b2, recs, params["mode"], q, "final")
-            html = on.renderer.render(b2, on.options, {})
+            html = [(t.type, t.content, [(c.type, c.content) for c in (t.children or [])]) for t in b2]
         except Exception as e:
             return [exc_record(e, "core")], "raised"
     finally:
@@ -165,11 +165,14 @@ def jobs(tier, seed):
             sp["a"] = {"alphabet": first}
             if tier == "quick" and (mode == "both" or (mode == "replacements" and first not in ".-+(c ")):
                 continue
-            jobs.append({"harness": "typo", "params": {"mode": mode, "scaffold": free_doc(k, "\n") if tier == "thorough" else free_doc(k, "\"c\n"), "spec": sp, "quotes": "chars" if mode == "smartquotes" else None,
+            jobs.append({"harness": "typo", "params": {"mode": mode, "scaffold": free_doc(k, "\n") if tier == "thorough" else free_doc(k, "\"c\n"), "spec": sp, "quotes": "chars" if (mode == "smartquotes" and tier == "thorough") else None,
                                                         "name": f"{mode}-{first!r}"}, "weight": 8, "cpu_cap": 2400, "wall_cap": 3600})
-        for sc in SCAFFOLDS:
+        for si, sc in enumerate(SCAFFOLDS):
             sc2 = sc if tier == "thorough" else [("x" if p == H("b") else p) for p in sc]
-            jobs.append({"harness": "typo", "params": {"mode": mode, "scaffold": sc2, "spec": anyspec, "quotes": "chars" if mode != "replacements" else None, "name": "ctx"},
+            if tier == "quick" and mode == "both" and si % 2:
+                continue
+            symq = mode != "replacements" and (tier == "thorough" or si in (0, 4, 11))
+            jobs.append({"harness": "typo", "params": {"mode": mode, "scaffold": sc2, "spec": anyspec, "quotes": "chars" if symq else None, "name": "ctx"},
                          "weight": 5, "cpu_cap": 2400, "wall_cap": 3600})
     for ql in (["<<", ">>", "", ""], ["", "", "'", "''"], ["„", "“", "‚", "‘"], ["'", "'", "\"", "\""]):
         jobs.append({"harness": "typo", "params": {"mode": "smartquotes", "scaffold": ["\"", H("a"), "\" '", H("b"), "' \"c\"\n"], "spec": tspec, "quotes": "list",
